@@ -103,7 +103,25 @@ for label, kw in (("default", {}), ("True", {"enabled": True}), ("False", {"enab
                 rec[str(shape)] = "OTHER " + type(e).__name__
         rec["provider_consulted"] = _Prov.calls
         provs[pname] = rec
+    # a function with an optional tensor that is None and a tuple of tensors: rejections of such calls must read the same
+    from typing import Optional
+
+    def h3(x: A, m: Optional[A] = None, t: tuple[A, B] = None) -> A:  # type: ignore[assignment]
+        return x
+
+    g3 = dltype.dltyped(**kw)(h3)
+    opt_calls = []
+    for sx, st0, st1, dt in (((2, 3), (2, 3), (3, 3), "f32"), ((2,), (2, 3), (3, 3), "f32"), ((2, 3), (2, 3), (3, 4), "f32"), ((2, 3), (4, 3), (3, 3), "f32"),
+                              ((2, 3), (2, 3), (3, 3), "i32")):
+        try:
+            g3(mk(sx, dt), None, (mk(st0, "f32"), mk(st1, "i32")))
+            opt_calls.append("accept")
+        except dltype.DLTypeError as e:
+            opt_calls.append(type(e).__name__ + ": " + str(e).split("] ")[-1])
+        except BaseException as e:  # noqa: BLE001
+            opt_calls.append("OTHER " + type(e).__name__)
     out[label] = {
+        "fn_opt": opt_calls,
         "providers": provs,
         "fn_identity": g is f, "dc_identity": D2 is D and D2.__init__ is d_init, "nt_identity": N2 is N,
         "fn": verdict(g), "dc": verdict(lambda x, y: D2(x, y)), "nt": verdict(lambda x, y: N2(x, y)),
